@@ -243,6 +243,22 @@ def _run_txt(case, ctx, pyspike, path):
               lambda: "saved %r (ignore_empty_lines=%r, %d comment lines) -> %d trains loaded, "
                       "expected %d" % ([len(t) for t in trains], case["ignore_empty"],
                                        len(case["comment_lines"]), len(loaded), len(exp)))
+    # the same trains in a file somebody typed by hand (shortest decimal form, whole
+    # numbers without a decimal point: "7"), same comment lines: the same trains come back
+    hand = [case["sep"].join(str(int(v)) if float(v).is_integer() else repr(float(v))
+                             for v in t) for t in trains]
+    for pos, text in sorted(case["comment_lines"], reverse=True):
+        hand.insert(min(pos, len(hand)), case["comment"] + text)
+    hpath = path + ".hand"
+    with open(hpath, "w") as f:
+        f.write("".join(l + "\n" for l in hand))
+    loaded_h = ctx.call("load_hand_written", pyspike.load_spike_trains_from_txt, hpath, edges,
+                        separator=case["sep"], comment=case["comment"],
+                        ignore_empty_lines=case["ignore_empty"])
+    ctx.check([[float(v) for v in l.spikes] for l in loaded_h] == exp, "hand_written_file",
+              lambda: "lines %r (ignore_empty_lines=%r) loaded as %r, expected %r"
+              % (hand, case["ignore_empty"], [[float(v) for v in l.spikes] for l in loaded_h],
+                 exp))
     e0 = 0.0 if case["edges"] == "scalar" else case["e0"]
     for n, (l, e) in enumerate(zip(loaded, exp)):
         got = [float(v) for v in l.spikes]
